@@ -346,13 +346,20 @@ class _RandRec(TorchDispatchMode):
         return out
 
 
-def nonstatic_case(n, calls):
-    name = "nonstatic/RandomUniformSampler/n%d_calls%d" % (n, calls)
+def nonstatic_case(n, calls, density=False):
+    """density: the sampler is built with density= instead of n_points= (the interval has length n/2 and the density is 2,
+    so that n points are due)"""
+    name = "nonstatic/RandomUniformSampler/%s%d_calls%d" % ("density_n" if density else "n", n, calls)
 
     def body(env):
         sh = SH.interval(env)
         SH.assume_positive(env, sh, [{}])
-        s = RandomUniformSampler(sh.dom, n_points=n)
+        if density:
+            lb_, ub_ = sh.oset.bbox({}, env.L)[0]
+            env.assume(env.L.eq(ub_ - lb_, env.L.num(n) / 2))
+            s = RandomUniformSampler(sh.dom, density=2)
+        else:
+            s = RandomUniformSampler(sh.dom, n_points=n)
         with _RandRec() as rec:
             pts = [s.sample_points() if k % 2 == 0 else next(s) for k in range(calls)]
         lb, ub = sh.oset.bbox({}, env.L)[0]
@@ -367,7 +374,7 @@ def nonstatic_case(n, calls):
             yield "call_uses_its_own_fresh_draw[call%d]" % (k + 1), L.And(
                 [L.eq(o["pts"][k][j][0], o["lb"] + (o["ub"] - o["lb"]) * o["draws"][k][j]) for j in range(n)] + [len(o["pts"][k]) == n])
 
-    return Case(name, body, goals, family="nonstatic", params=dict(n=n, calls=calls))
+    return Case(name, body, goals, family="nonstatic", params=dict(n=n, calls=calls, density=density))
 
 
 # --------------------------------------------------------------------------
@@ -479,6 +486,7 @@ def cases(tier):
     for p in pats:
         cs.append(static_next_case(R, M, p))
     cs.append(nonstatic_case(2, 3))
+    cs.append(nonstatic_case(2, 3, density=True))
     if th:
         cs.append(nonstatic_case(3, 4))
     kinds = ["Interval"] + (["Parallelogram", "Circle"] if th else [])
